@@ -205,6 +205,11 @@ def r3(ctx, prog):
             nullq = lambda e, pol: isinstance(e, int) and rl.fact_null(g, e, pol, rl.is_var(g, qs[0]))
             for r in rets_enomem:
                 ok = ok and cfg.guarded(cfg.pt(r), nullq) is None
+            # the store itself is reached only when the allocation succeeded or nothing was requested
+            szp = g.param_id(2)
+            def okq(e, pol):
+                return isinstance(e, int) and (rl.fact_nonnull(g, e, pol, rl.is_var(g, qs[0])) or rl.fact_null(g, e, pol, rl.is_var(g, szp)))
+            ok = ok and cfg.guarded(cfg.pt(s), okq) is None
         ctx.check(R, ok, g.where(s), "*p = q; the NULL result returns ENOMEM without storing", key="C06.R3:posix:store")
     bad = [r for r in g.all(kind="ReturnStmt") if g.cv(g.nodes[r].get("val", -1)) not in (0, einval, enomem)]
     ctx.check(R, not bad, g.where(), "returns only 0, EINVAL or ENOMEM", key="C06.R3:posix:codes")
